@@ -10,6 +10,10 @@ import GaeaVerif.Model.Go
   when the decimal exponent is < -4 or ≥ 6 (the rule for the shortest form)
   and in `%f` form otherwise.  Compared with the real `fmt` on every run.
   Exact arithmetic on `Nat`; core Lean only.
+
+  The function is cut into named pieces (`scaled`, `findShortest`,
+  `digitsTrim`, `fmtDigits`, `fmtMagnitude`) so that Lemmas/StmtFloat.lean can
+  state what each of them guarantees; `fmtV` is their composition.
 -/
 namespace GaeaVerif.StmtGoFloat
 open GaeaVerif
@@ -19,39 +23,49 @@ def digitsOf (n : Nat) : List Nat := if n = 0 then [] else (Nat.toDigits 10 n).m
 
 def natOfDigits (ds : List Nat) : Nat := ds.foldl (fun a d => a * 10 + d) 0
 
-/-- Shortest digits: for the float `mant × 2^(e2)` (with `mant > 0`), whose
-    neighbours' midpoints are `lowerNum` and `upperNum` in the same unit `2^(e2 - 2)`
-    as `v4 = 4·mant`, returns `(digits, dp)` with value `0.d₁d₂… × 10^dp`. -/
-def shortest (v4 lower4 upper4 : Nat) (e : Int) (inclusive : Bool) : List Nat × Int :=
-  -- everything as integers in units of 10^s
-  let (v, lo, up, s) : Nat × Nat × Nat × Int :=
-    if e ≥ 0 then (v4 * 2 ^ e.toNat, lower4 * 2 ^ e.toNat, upper4 * 2 ^ e.toNat, 0)
-    else (v4 * 5 ^ (-e).toNat, lower4 * 5 ^ (-e).toNat, upper4 * 5 ^ (-e).toNat, e)
-  let jmax := (digitsOf up).length
-  -- the largest j (fewest digits kept) at which truncating or rounding up at 10^j stays inside the bounds
-  let rec find (fuel j : Nat) : Nat × Nat :=
-    let p := 10 ^ j
-    let down := v / p * p
-    let upv := down + p
-    let okdown := down > lo || (inclusive && down == lo)
-    let okup := upv < up || (inclusive && upv == up)
-    let pick : Nat :=
-      if okdown && okup then
-        let r := v % p
-        if 2 * r > p then upv
-        else if 2 * r < p then down
-        else if (v / p) % 2 = 1 then upv else down
-      else if okdown then down else upv
-    if okdown || okup then (pick, j)
-    else match fuel with
-      | 0 => (v, 0)
-      | f + 1 => if j = 0 then (v, 0) else find f (j - 1)
-  let (r, _) := find jmax jmax
-  -- r in units of 10^s: strip trailing zeros
+/-- The float `v4/4 × 2^(e+2)` and the midpoints `lower4/4`, `upper4/4` (same
+    unit) to its neighbours, as integers `(v, lo, up)` in units of `10^s`:
+    for `e ≥ 0` multiply by `2^e` (`s = 0`), for `e < 0` by `5^(-e)` (`s = e`,
+    because `2^e = 5^(-e) × 10^e`). -/
+def scaled (v4 lower4 upper4 : Nat) (e : Int) : Nat × Nat × Nat × Int :=
+  if e ≥ 0 then (v4 * 2 ^ e.toNat, lower4 * 2 ^ e.toNat, upper4 * 2 ^ e.toNat, 0)
+  else (v4 * 5 ^ (-e).toNat, lower4 * 5 ^ (-e).toNat, upper4 * 5 ^ (-e).toNat, e)
+
+/-- The largest `j ≤` the start value (fewest digits kept) at which truncating
+    `v` to a multiple of `10^j` or rounding it up to the next one stays inside
+    the bounds `lo`, `up` (bounds themselves allowed iff `inclusive`); the
+    nearer of the two when both do (ties to even); `v` itself if no `j` does. -/
+def findShortest (v lo up : Nat) (inclusive : Bool) (fuel j : Nat) : Nat × Nat :=
+  let p := 10 ^ j
+  let down := v / p * p
+  let upv := down + p
+  let okdown := down > lo || (inclusive && down == lo)
+  let okup := upv < up || (inclusive && upv == up)
+  let pick : Nat :=
+    if okdown && okup then
+      let r := v % p
+      if 2 * r > p then upv
+      else if 2 * r < p then down
+      else if (v / p) % 2 = 1 then upv else down
+    else if okdown then down else upv
+  if okdown || okup then (pick, j)
+  else match fuel with
+    | 0 => (v, 0)
+    | f + 1 => if j = 0 then (v, 0) else findShortest v lo up inclusive f (j - 1)
+
+/-- `r` in units of `10^s` as `(digits, dp)` with value `0.d₁d₂… × 10^dp`,
+    trailing zeros stripped. -/
+def digitsTrim (r : Nat) (s : Int) : List Nat × Int :=
   let ds := digitsOf r
-  let nd := ds.length
-  let dsTrim := (ds.reverse.dropWhile (· == 0)).reverse
-  (dsTrim, (nd : Int) + s)
+  ((ds.reverse.dropWhile (· == 0)).reverse, (ds.length : Int) + s)
+
+/-- Shortest digits: for the float `v4/4 × 2^(e+2)` (with `v4 > 0`), whose
+    neighbours' midpoints are `lower4` and `upper4` in the same unit, returns
+    `(digits, dp)` with value `0.d₁d₂… × 10^dp`. -/
+def shortest (v4 lower4 upper4 : Nat) (e : Int) (inclusive : Bool) : List Nat × Int :=
+  let sc := scaled v4 lower4 upper4 e
+  let jmax := (digitsOf sc.2.2.1).length
+  digitsTrim (findShortest sc.1 sc.2.1 sc.2.2.1 inclusive jmax jmax).1 sc.2.2.2
 
 def digitChar (d : Nat) : UInt8 := UInt8.ofNat (48 + d)
 
@@ -81,33 +95,52 @@ def fmtF (ds : List Nat) (dp : Int) : Bytes :=
     else []
   intPart ++ frac
 
+/-- `%v` of the digits: `%e` when the decimal exponent `dp - 1` is `< -4` or `≥ 6`
+    (`eprec = 6` for the shortest form), else `%f`. -/
+def fmtDigits (ds : List Nat) (dp : Int) : Bytes :=
+  if dp - 1 < -4 ∨ dp - 1 ≥ 6 then fmtE ds dp else fmtF ds dp
+
+def mantbits (dbl : Bool) : Nat := if dbl then 52 else 23
+def expbits (dbl : Bool) : Nat := if dbl then 11 else 8
+def bias (dbl : Bool) : Int := if dbl then -1023 else -127
+
+/-- the biased exponent field -/
+def expField (dbl : Bool) (bits : Nat) : Nat := bits / 2 ^ mantbits dbl % 2 ^ expbits dbl
+/-- the fraction field -/
+def fracField (dbl : Bool) (bits : Nat) : Nat := bits % 2 ^ mantbits dbl
+/-- the sign bit -/
+def negative (dbl : Bool) (bits : Nat) : Bool := bits / 2 ^ (mantbits dbl + expbits dbl) % 2 = 1
+/-- neither NaN nor ±Inf: the exponent field is not all ones -/
+def finite (dbl : Bool) (bits : Nat) : Bool := expField dbl bits ≠ 2 ^ expbits dbl - 1
+
+/-- `(mant, exp)` with `|f| = mant × 2^(exp - mantbits)` (subnormals: no hidden bit). -/
+def mantExp (dbl : Bool) (bits : Nat) : Nat × Int :=
+  if expField dbl bits = 0 then (fracField dbl bits, bias dbl + 1)
+  else (fracField dbl bits + 2 ^ mantbits dbl, (expField dbl bits : Int) + bias dbl)
+
+/-- In units of a quarter of the last place (`2^(exp - mantbits - 2)`), where
+    the float is `4·mant` and the midpoint to the next float `4·mant + 2`: the
+    midpoint to the previous float, `4·mant - 2`, or `4·mant - 1` when the
+    previous float has a smaller exponent (half the spacing). -/
+def lower4 (dbl : Bool) (mant : Nat) (exp : Int) : Nat :=
+  if mant > 2 ^ mantbits dbl ∨ exp = bias dbl + 1 then 4 * mant - 2 else 4 * mant - 1
+
+/-- The shortest digits of the finite non-zero float with these bits. -/
+def shortestOf (dbl : Bool) (bits : Nat) : List Nat × Int :=
+  let me := mantExp dbl bits
+  shortest (4 * me.1) (lower4 dbl me.1 me.2) (4 * me.1 + 2) (me.2 - mantbits dbl - 2) (me.1 % 2 = 0)
+
+/-- `%v` of `|f|` for a finite `f`. -/
+def fmtMagnitude (dbl : Bool) (bits : Nat) : Bytes :=
+  if (mantExp dbl bits).1 = 0 then [0x30]
+  else fmtDigits (shortestOf dbl bits).1 (shortestOf dbl bits).2
+
 /-- `fmt.Sprintf("%v", f)`, `f` the float32 (`dbl = false`) or float64 with
     these bits. -/
 def fmtV (dbl : Bool) (bits : Nat) : Bytes :=
-  let mantbits : Nat := if dbl then 52 else 23
-  let expbits : Nat := if dbl then 11 else 8
-  let bias : Int := if dbl then -1023 else -127
-  let neg := bits / 2 ^ (mantbits + expbits) % 2 = 1
-  let expField := bits / 2 ^ mantbits % 2 ^ expbits
-  let frac := bits % 2 ^ mantbits
-  if expField = 2 ^ expbits - 1 then
-    if frac ≠ 0 then [0x4e, 0x61, 0x4e]                       -- NaN
-    else if neg then [0x2d, 0x49, 0x6e, 0x66]                 -- -Inf
-    else [0x2b, 0x49, 0x6e, 0x66]                             -- +Inf
-  else
-    let sign : Bytes := if neg then [0x2d] else []
-    let (mant, exp) : Nat × Int :=
-      if expField = 0 then (frac, bias + 1) else (frac + 2 ^ mantbits, (expField : Int) + bias)
-    if mant = 0 then sign ++ [0x30]
-    else
-      -- value = mant × 2^(exp - mantbits)
-      let minexp : Int := bias + 1
-      let e2 : Int := exp - mantbits
-      -- in units of 2^(e2-2): value = 4·mant, upper = 4·mant + 2, lower = 4·mant - 2, or 4·mant - 1
-      -- when the next lower float has a smaller exponent
-      let lower4 := if mant > 2 ^ mantbits ∨ exp = minexp then 4 * mant - 2 else 4 * mant - 1
-      let (ds, dp) := shortest (4 * mant) lower4 (4 * mant + 2) (e2 - 2) (mant % 2 = 0)
-      let x := dp - 1
-      if x < -4 ∨ x ≥ 6 then sign ++ fmtE ds dp else sign ++ fmtF ds dp
+  if finite dbl bits then (if negative dbl bits then [0x2d] else []) ++ fmtMagnitude dbl bits
+  else if fracField dbl bits ≠ 0 then [0x4e, 0x61, 0x4e]          -- NaN
+  else if negative dbl bits then [0x2d, 0x49, 0x6e, 0x66]           -- -Inf
+  else [0x2b, 0x49, 0x6e, 0x66]                                     -- +Inf
 
 end GaeaVerif.StmtGoFloat
